@@ -71,6 +71,9 @@ DEFAULT_OPTS = {
     "kinds": None,              # per data column: "str" | "int" | "float"
     "convert": True,
     "prefixes": False,          # also run every proper prefix (C04 PrefixStable)
+    "numh": None,               # "int" | "float": row heights produced by a NUMERIC column (narrow, wrapping digits) instead of a text cell
+    "gby": 0,                   # > 0: the second data column is a group_by column whose label needs that many lines
+    "shadow": False,            # the same frame was encoded with the opposite text_convert setting just before
 }
 
 _fill_cache = {}
@@ -196,6 +199,9 @@ def build(c, o, nrows=None):
     dup = bool(o.get("dup")) and len(dcols) >= 2 and o["texts"] is None and not o["relw"]
     if dup:
         relw_all = [4.0 if x == dcols[1] else 1.0 for x in cols]
+    special = len(dcols) >= 2 and o["texts"] is None and not o["relw"] and not dup
+    numh = o.get("numh") if special else None
+    gby = int(o.get("gby") or 0) if special and not numh else 0
     relw_kept = [w for x, w in zip(cols, relw_all) if x not in removed]
     page_kw = dict(nrow=c["nrow"], orientation=o["orientation"], page_title=c["ptitle"],
                    page_footnote=c["pfoot"], page_source=c["psrc"],
@@ -208,7 +214,26 @@ def build(c, o, nrows=None):
         page_kw["col_width"] = o["col_width"]
     page = rtf.RTFPage(**page_kw)
     colw_total = page.col_width
+    if numh and colw_total > 1.0:
+        # the numeric column is 0.2 in wide (about three digits per line at 9 pt), the others share the rest equally
+        others = len(kept) - 1
+        relw_all = [1.0 if x != dcols[1] else 0.2 * others / (colw_total - 0.2) for x in cols]
+        relw_kept = [w for x, w in zip(cols, relw_all) if x not in removed]
     colw = {x: w * colw_total / sum(relw_kept) for x, w in zip(kept, relw_kept)}
+
+    def numeric_text(h, r):
+        # digits whose width at 9 pt falls inside the h-line band of the numeric column (closest fit if none does)
+        best = None
+        for dg in range(1, 19):
+            t = ("0." + "1" * (dg - 1)) if numh == "float" and dg >= 3 else str(r % 9 + 1) * dg
+            if numh == "float" and dg < 3:
+                t = str(r % 9 + 1) + ".5"
+            ln = _width_in(t, 1, 9) / colw[dcols[1]]
+            if h - 1 + 0.2 < ln < h - 0.2:
+                return t
+            if best is None or abs(ln - (h - 0.5)) < best[0]:
+                best = (abs(ln - (h - 0.5)), t)
+        return best[1]
 
     data = {x: [] for x in cols}
     for r in range(1, n + 1):
@@ -220,6 +245,14 @@ def build(c, o, nrows=None):
         for k, x in enumerate(dcols):
             if o["texts"] is not None:
                 data[x].append(o["texts"][r - 1][k])
+            elif k == 0 and numh:
+                data[x].append("d%03d" % r)
+            elif k == 1 and numh:
+                t = numeric_text(c["h"][r - 1], r)
+                data[x].append(int(t) if numh == "int" else float(t))
+            elif k == 1 and gby:
+                # group_by column: runs of three rows share one label that needs `gby` lines in its column
+                data[x].append(filler("g%02d" % ((r - 1) // 3), gby, colw[x], 1, 9))
             elif k == 0:
                 # heights are those of the implementation's estimator (font 1, 9pt)
                 data[x].append(filler("d%03d" % r, c["h"][r - 1], colw[x], 1, 9))
@@ -230,6 +263,8 @@ def build(c, o, nrows=None):
                 t = "v%d.%d" % (r, k)
                 data[x].append(t if _width_in(t, 1, 9) < 0.8 * colw[x] else "")
     schema = {x: pl.Utf8 for x in cols}
+    if numh:
+        schema[dcols[1]] = pl.Int64 if numh == "int" else pl.Float64
     if o["texts"] is not None and o.get("kinds"):
         import datetime as _dt
         for k, x in enumerate(dcols):
@@ -262,7 +297,9 @@ def build(c, o, nrows=None):
         body_kw["border_top"] = umatrix(o["utop"])
     if o["ubot"]:
         body_kw["border_bottom"] = umatrix(o["ubot"])
-    if o["relw"] or o.get("relwk", "equal") != "equal" or dup:
+    if gby:
+        body_kw["group_by"] = [dcols[1]]
+    if o["relw"] or o.get("relwk", "equal") != "equal" or dup or numh:
         body_kw["col_rel_width"] = list(relw_all)
     if o["font"] != 1:
         body_kw["text_font"] = o["font"]
@@ -478,6 +515,13 @@ def run_one(sc):
     except Exception as ex:  # constructor refused: not a pipeline scenario
         rec["outcome"] = "construct:" + type(ex).__name__ + ":" + str(ex)[:200]
         return rec
+    if o.get("shadow"):
+        try:
+            o2 = dict(o)
+            o2["convert"] = not o["convert"]
+            build(c, o2)[0].rtf_encode()
+        except Exception:  # noqa - the shadow document is not under test
+            pass
     try:
         text = doc.rtf_encode()
     except Exception as ex:
